@@ -26,7 +26,9 @@ LEVEL_TEXT = ('Lean 4 theorems for every program, every history-dependent oracle
               'array sizes, named indices, neighbour lists) about a model that transcribes MegaGroup._make_data, the '
               'mako template and its helper: implTrace_eq_specTrace (the generated evaluation performs exactly the '
               'documented sequence of calls), megagroup_preserves_order, np_dest, dest_range, explicit_stop_ignores_real, iteration_bounds, '
-              'skipped_when_condition_false, pre_post_once_per_pass, src_particle_calls and the excluded-point '
+              'skipped_when_condition_false, pre_post_once_per_pass, src_particle_calls, group_name_irrelevant (groups are '
+              'identified by their position in the group tree: programs that differ only in Group(name=...) labels, '
+              'shared labels included, make the same calls) and the excluded-point '
               'theorems (iteration_unbounded_when_min_gt_max, empty_top_group_is_skipped); '
               'the model is tied to the code on every run by tracer equations compiled through the real pipeline, and '
               'the property statement is evaluated independently (Python transcription + brute-force neighbours) on '
@@ -34,7 +36,8 @@ LEVEL_TEXT = ('Lean 4 theorems for every program, every history-dependent oracle
 LEVEL_NOTE = ('Trusted: Lean kernel and the three standard axioms; the hand-written model (checked by the trace '
               'correspondence on random group trees, including explicit numeric/named stop_idx beyond the number of '
               'real particles over ghost/remote destinations, and iterated groups whose first neighbour loop is '
-              'entered from a different (dest, source) pair on the first and on later passes; the neighbour lists '
+              'entered from a different (dest, source) pair on the first and on later passes, and groups / sub-groups that '
+              'share one explicit name= while carrying their own condition/pre/post with different outcomes; the neighbour lists '
               'compared are the ones the generated loops iterate, the NNPS spy restores the context it found); '
               'the tracer instrumentation; compyle/Cython/g++. Not covered: '
               'OpenMP scheduling (order across destination particles inside one parallel loop is unspecified), data '
